@@ -1,7 +1,7 @@
 (* Properties/C08.v — Applying a diff to the right document reconstructs the left one. *)
 From Coq Require Import List String Bool ZArith Arith.
 From YT Require Import Base.Str Base.KV Base.Sort Model.Doc Model.Dom Model.Builder Model.Diff Model.Apply
-  Model.Path Proofs.BuilderProofs Proofs.PathProofs Proofs.ApplyProofs Proofs.ApplyLookupProofs.
+  Model.Path Proofs.BuilderProofs Proofs.PathProofs Proofs.ApplyProofs Proofs.FrameProofs Proofs.ApplyLookupProofs Proofs.DiffNilProofs Proofs.ReconstructProofs.
 Import ListNotations.
 Local Open Scope list_scope.
 
@@ -28,11 +28,54 @@ Theorem C08_apply_add_lookup : forall k r v old t kvs,
 Proof. exact apply_add_lookup. Qed.
 Print Assumptions C08_apply_add_lookup.
 
-(* Not proved (C08_reconstruction is decided on every run by the correspondence: the whole
-   document Apply(R, Diff(L,R)) is compared with this model, and
-   Flatten(Apply(R,Diff(L,R))) == Flatten(L) is a Go-side oracle on the stated domain):
+(* applySingle for Add/Change at a flatten-style path IS AddValueAt of the leaf there (the two are
+   separate code: diff/apply.go's applyListItem/applyList vs dom's ensureList/ancestorOf) ... *)
+Theorem C08_apply_add_is_add_value_at : forall k r v old t kvs,
+  forallb step_safe (K k :: r) = true -> t = MAdd \/ t = MChange ->
+  apply (Con kvs) [mkMod t (render_steps (K k :: r)) v old] =
+  Con (add_value_at (render_steps (K k :: r)) (Leaf v) kvs).
+Proof. exact apply_add_is_add_value_at. Qed.
+Print Assumptions C08_apply_add_is_add_value_at.
+
+(* ... so it changes nothing else: every existing position that diverges from the written one
+   keeps its value (C03's frame) *)
+Theorem C08_apply_add_frame : forall k r k' r' v old t kvs,
+  forallb step_safe (K k :: r) = true -> forallb step_safe (K k' :: r') = true -> t = MAdd \/ t = MChange ->
+  FrameProofs.diverge (K k :: r) (K k' :: r') ->
+  lookup (render_steps (K k' :: r')) (Con kvs) <> None ->
+  lookup (render_steps (K k' :: r')) (apply (Con kvs) [mkMod t (render_steps (K k :: r)) v old]) =
+  lookup (render_steps (K k' :: r')) (Con kvs).
+Proof. exact apply_add_frame. Qed.
+Print Assumptions C08_apply_add_frame.
+
+(* an applied Delete makes Lookup of that path return nothing *)
+Theorem C08_apply_delete_lookup : forall path kvs,
+  wf_kvs kvs = true -> plain_comp (last (split_dots path) ""%string) = true ->
+  lookup path (apply (Con kvs) [mkMod MDelete path SNull SNull]) = None.
+Proof. exact apply_delete_lookup. Qed.
+Print Assumptions C08_apply_delete_lookup.
+
+(* Reconstruction, the case R = {} (everything is "a key only the left has"): Diff(L, {}) is one Add
+   per flattened leaf of L in path order, and applying it to the empty document makes every
+   flattened path of L resolve to its leaf — for every well-formed L with path-safe keys, lists in
+   lists to any depth included. *)
+Theorem C08_diff_to_empty : forall kl,
+  diff (Con kl) (Con []) = sort_mods (map DiffNilProofs.add_of (flatten (Con kl))).
+Proof. exact diff_to_empty. Qed.
+Print Assumptions C08_diff_to_empty.
+
+Theorem C08_reconstruct_from_empty : forall kl p v,
+  wf (Con kl) = true -> keys_safe (Con kl) = true ->
+  In (p, v) (flatten (Con kl)) ->
+  lookup p (apply (Con []) (diff (Con kl) (Con []))) = Some (Leaf v).
+Proof. exact reconstruct_from_empty. Qed.
+Print Assumptions C08_reconstruct_from_empty.
+
+(* Not proved in general (decided on every run by the correspondence: the whole document
+   Apply(R, Diff(L,R)) is compared with this model, and Flatten(Apply(R,Diff(L,R))) == Flatten(L)
+   is a Go-side oracle on the stated domain):
    - apply_diff_flatten : compatible l r -> every_item_has_scalar l r ->
-                          flatten (apply r (diff l r)) = flatten l *)
+                          flatten (apply r (diff l r)) = flatten l     for arbitrary r *)
 
 (* non-vacuity: the pair that was reconstructed wrongly on the pinned tree, and a list of lists *)
 Example C08_ex :
